@@ -182,6 +182,7 @@ def run (args : List String) : String :=
       let s0 : Sys := { cap := 10, fill := min n 10, pending := (if n > 10 then 1 else 0), r := .holding, c := .waiting }
       closeRun closeDrainsWhileLocking (measure s0 + 1) s0
     | none => "bad-op"
+  | ["reader-exit-unknown", _, _] | ["reader-exit-unknown", _] => if readerErrSendsGuarded then "connclose=ok reader=ended" else "connclose=ok reader=ended|connclose=ok reader=alive"
   | ["reader-exit", _] => if readerErrSendsGuarded then "connclose=ok reader=ended" else "connclose=ok reader=ended|connclose=ok reader=alive"
   | _ => "bad-op"
 
